@@ -73,9 +73,8 @@ func (d *DebugDialer) Dial(ctx context.Context, urlstr string) (conn net.Conn, b
 		// We must split response inside buffered bytes from other received
 		// bytes from server.
 		p := resBuf.Bytes()
-		n := bytes.Index(p, headEnd)
-		h := n + len(headEnd)         // Head end index.
-		n = h + int(resContentLength) // Body end index.
+		h := headLen(p)                // Head end index.
+		n := h + int(resContentLength) // Body end index.
 
 		onResponse(p[:n])
 
@@ -125,7 +124,25 @@ func (rwc rwConn) Write(p []byte) (int, error) {
 	return rwc.w.Write(p)
 }
 
-var headEnd = []byte("\r\n\r\n")
+// headLen returns the length of the HTTP message head that p begins with,
+// including the empty line that ends it. Lines may end with CRLF or with a
+// bare LF, as ws.Dialer accepts both. If p holds no complete head (the
+// response was cut short, or never arrived), it returns len(p).
+func headLen(p []byte) int {
+	for i := 0; i < len(p); i++ {
+		if p[i] != '\n' {
+			continue
+		}
+		j := i + 1
+		if j < len(p) && p[j] == '\r' {
+			j++
+		}
+		if j < len(p) && p[j] == '\n' {
+			return j + 1
+		}
+	}
+	return len(p)
+}
 
 type prefetchResponseReader struct {
 	source io.Reader // Original connection source.
